@@ -360,6 +360,57 @@ class SSeq:
                 self._wrap_imm(self.items[k:k + len(se)]),
                 self._wrap_imm(self.items[k + len(se):]))
 
+    def translate(self, table):
+        """str.translate / bytes.translate with a mapping (str) or a
+        256-entry table (bytes).  A symbolic element forks only on the kind
+        of its outcome (dropped / mapped / kept), not per table entry."""
+        out = []
+        if self.kind != STR:
+            tb = elems_of(table)
+            if len(tb) != 256:
+                raise ValueError('translation table must be 256 characters '
+                                 'long')
+            from . import rt
+            for x in self.items:
+                out.append(rt.seq_lookup(list(tb), x) if type(x) is not int
+                           else tb[x])
+            return self._wrap_imm(out)
+        if not isinstance(table, dict):
+            raise Unsupported('translate() with a non-dict table')
+        for x in self.items:
+            if type(x) is int:
+                if x in table:
+                    v = table[x]
+                    if v is None:
+                        continue
+                    out.extend([v] if isinstance(v, int) else elems_of(v))
+                else:
+                    out.append(x)
+                continue
+            keys = [k for k in table if isinstance(k, int) and
+                    x.lo <= k <= x.hi]
+            dropped = [k for k in keys if table[k] is None]
+            single = [k for k in keys if table[k] is not None and (
+                isinstance(table[k], int) or len(table[k]) == 1)]
+            multi = [k for k in keys if k not in dropped and k not in single]
+            if dropped and Or(*[x == k for k in dropped]):
+                continue
+            hit = False
+            for k in multi:
+                if x == k:
+                    out.extend(elems_of(table[k]))
+                    hit = True
+                    break
+            if hit:
+                continue
+            r = x
+            for k in single:
+                v = table[k]
+                v = v if isinstance(v, int) else elems_of(v)[0]
+                r = Ite(x == k, v, r)
+            out.append(r)
+        return self._wrap_imm(out)
+
     def replace(self, old, new, count=-1):
         oe, ne = elems_of(old), elems_of(new)
         if not oe:
